@@ -740,13 +740,13 @@ fn visit_stmt_shape(e: &syn::Expr) -> (Option<String>, Vec<String>) {
             }
             (field, calls_in(&b.block, &binder))
         }
-        syn::Expr::If(i) => {
-            if let syn::Expr::Let(l) = &*i.cond {
+        syn::Expr::If(_) | syn::Expr::Match(_) => {
+            if let Some(il) = sm::if_let_form(e) {
                 let mut ids = vec![];
-                sm::pat_idents(&l.pat, &mut ids);
-                let is_some = sm::tsc(&l.pat).starts_with("Some(");
-                if is_some && i.else_branch.is_none() {
-                    return (field_of(&l.expr), calls_in(&i.then_branch, ids.get(0).map(|s| s.as_str()).unwrap_or("")));
+                sm::pat_idents(il.pat, &mut ids);
+                let is_some = sm::tsc(il.pat).starts_with("Some(");
+                if is_some && il.else_block.is_none() {
+                    return (field_of(il.scrut), calls_in(il.then_block, ids.get(0).map(|s| s.as_str()).unwrap_or("")));
                 }
             }
             (None, vec![sm::tsc(e)])
